@@ -148,6 +148,10 @@ type World struct {
 	Clk Clock
 
 	Name string
+	// Det: deterministic user functions (C01 recovery suite); detCtx is what the function about to ask for an outcome was handed
+	Det          *Det
+	detCtx       detCtx
+	usedOutcomes []string
 	// IgnoreCancel: the record store takes effect even when the caller's context is already cancelled (as memrecordstore does)
 	IgnoreCancel bool
 	runs         []*runRec
@@ -198,6 +202,7 @@ func (w *World) ob(format string, a ...any) { w.obs = append(w.obs, fmt.Sprintf(
 
 func (w *World) beginOp(env Env) {
 	w.env = env
+	w.usedOutcomes = nil
 	w.callN = 0
 	w.outN2 = 0
 	w.obs = nil
@@ -206,6 +211,11 @@ func (w *World) beginOp(env Env) {
 }
 
 func (w *World) nextOutcome() string {
+	if w.Det != nil {
+		o := w.Det.outcome(w.detCtx)
+		w.usedOutcomes = append(w.usedOutcomes, o)
+		return o
+	}
 	if w.outN2 < len(w.env.Outcomes) {
 		o := w.env.Outcomes[w.outN2]
 		w.outN2++
